@@ -25,7 +25,7 @@ Cases == JsonDeserialize(IOEnv.VEL_CASES)
 Mon   == IOEnv.VEL_MON
 
 ParamsOf(c) == [level |-> c.level, pay |-> c.pay, fee |-> c.fee,
-                keep |-> IOEnv.VEL_KEEP = "true", persistFee |-> IOEnv.VEL_PERSIST_FEE = "true"]
+                keep |-> IOEnv.VEL_KEEP = "true", persistFee |-> IOEnv.VEL_PERSIST_FEE = "true", ns |-> c.ns]
 PS == [i \in DOMAIN Cases |-> ParamsOf(Cases[i])]
 
 InLevels(l) == \/ IOEnv.VEL_LEVELS = "all"
@@ -37,14 +37,14 @@ HasOps(c, ops) == \E k \in DOMAIN c.reqs : c.reqs[k].op \in ops
 Relevant(c) == CASE Mon = "pay" -> HasOps(c, PayOps) [] Mon = "fee" -> HasOps(c, FeeOps) [] OTHER -> TRUE
 Roots == {i \in DOMAIN Nodes : Nodes[i].root = 1 /\ Selected(Nodes[i]) /\ Relevant(Cases[Nodes[i].c])}
 
-RespOf(e) == [ok |-> e[3] = 1]
+RespOf(e) == [ok |-> e[3] = 1, err |-> e[3] < 0]
 
 VARIABLES node, g, last
 
 Init == \E i \in Roots :
           /\ node = Nodes[i].id
           /\ g = InitGhost(PS[Nodes[i].c])
-          /\ last = [case |-> Cases[Nodes[i].c].id, from |-> -1, op |-> "init", dt |-> 0, a |-> 0, ok |-> 1]
+          /\ last = [case |-> Cases[Nodes[i].c].id, from |-> -1, op |-> "init", dt |-> 0, a |-> 0, h |-> 0, ok |-> 1]
 
 Next == \E j \in DOMAIN Nodes[node + 1].e :
           LET nd == Nodes[node + 1]
@@ -53,7 +53,7 @@ Next == \E j \in DOMAIN Nodes[node + 1].e :
           /\ e[1] >= 0
           /\ node' = e[1]
           /\ g' = GhostFor(Mon, g, r, RespOf(e), PS[nd.c])
-          /\ last' = [case |-> Cases[nd.c].id, from |-> node, op |-> r.op, dt |-> r.dt, a |-> r.a, ok |-> e[3]]
+          /\ last' = [case |-> Cases[nd.c].id, from |-> node, op |-> r.op, dt |-> r.dt, a |-> r.a, h |-> r.h, ok |-> e[3]]
 
 Spec == Init /\ [][Next]_<<node, g, last>>
 View == <<node, g>>
@@ -73,13 +73,14 @@ EdgesWhere(Bad(_, _)) == UNION {BadAt(i, Bad) : i \in {k \in DOMAIN Nodes : Sele
 Conforms(nd, e) ==
   LET P == PS[nd.c]
       o == Step(nd.pre, Cases[nd.c].reqs[e[2]], P) IN
-  /\ e[3] = (IF o.resp.ok THEN 1 ELSE 0)
+  /\ e[3] = Code(o.resp)
   /\ e[1] >= 0 => Norm(o.s, P) = Norm(Nodes[e[1] + 1].pre, P)
 
 \* (TLC evaluates constant definitions eagerly at start-up: the switch has to be inside them)
 Full      == IOEnv.VEL_CONFORM # "no"
 Divergent == IF Full THEN EdgesWhere(LAMBDA nd, e : ~Conforms(nd, e)) ELSE {}
-Failed    == IF Full THEN EdgesWhere(LAMBDA nd, e : e[3] < 0) ELSE {}
+Failed    == IF Full THEN EdgesWhere(LAMBDA nd, e : e[3] < 0 /\ ~Step(nd.pre, Cases[nd.c].reqs[e[2]], PS[nd.c]).resp.err)
+             ELSE {}
 InitBad   == {i \in Roots : Norm(Nodes[i].pre, PS[Nodes[i].c]) # Norm(InitState(PS[Nodes[i].c]), PS[Nodes[i].c])}
 
 Sel    == {k \in DOMAIN Nodes : Selected(Nodes[k])}
@@ -90,7 +91,7 @@ NOk    == FoldLeft(LAMBDA acc, nd : IF Selected(nd)
 Describe(p) == LET nd == Nodes[p[1]] e == nd.e[p[2]] P == PS[nd.c] IN
   [case |-> Cases[nd.c].id, node |-> nd.id, pre |-> nd.pre, req |-> Cases[nd.c].reqs[e[2]], ok |-> e[3],
    post |-> IF e[1] >= 0 THEN Nodes[e[1] + 1].pre ELSE nd.pre,
-   expected |-> LET o == Step(nd.pre, Cases[nd.c].reqs[e[2]], P) IN [ok |-> o.resp.ok, post |-> o.s]]
+   expected |-> LET o == Step(nd.pre, Cases[nd.c].reqs[e[2]], P) IN [ok |-> Code(o.resp), post |-> o.s]]
 
 \* VEL_CONFORM = "no": a repeated run over the same graph (other monitor) skips the edge comparison
 Report ==
